@@ -53,18 +53,19 @@ CLAIMED = {
              ref="§7 C14", technique="Lean 4 proof (scan invariants, decide +kernel on the regenerated phred table) + bit-exact model/implementation correspondence"),
 }
 EXTRA_TEXT = {
+ "C01": " Added: generators with absolute error counts at the lengths where the double k/n times n falls below k; translator gen_tolerance with generated_full_tolerance; an exception escaping from the implementation is reported as a failure (implementation-raised).",
  "C13": " Added: translator gen_qualwiring (interval kept by -q/-Q/--nextseq-trim on probe reads under both quality encodings) with generated_quality_wiring.",
  "C15": " Added: translator gen_demux (files created and routing of probe reads, {name} and {name1}/{name2}, duplicate names, one sequence under two names) with generated_demux_files_and_routing, generated_comb_files_and_routing.",
  "C09": " Added: default_pipeline_without_index (without two indexable anchored adapters of one kind the default assembly is the --no-index assembly); the rule oracle is applied in the default mode whenever no index can be built.",
  "C03": " Added: translator gen_actions (every --action on probe reads) with generated_actions_documented. Added: the adapter index is part of the pipeline model (Matchable.indexed, Regroup.lean); indexed_pipeline_marked_slice states the slice property for the default, index-using "
         "pipeline; half of the correspondence runs use the index.",
  "C08": " Added: _split_adapters / _regroup_into_indexed_adapters modelled (Regroup.lean): regroup_noop, regroup_entries, regroup_wf, split_positions_perm, regroup_origin_perm "
-        "(regrouping refers to every given adapter exactly once); the index object is a constructor of the pipeline's Matchable, so pipeline-level correspondence runs in index mode. regroup_names / regroup_every_adapter_named: the name table after regrouping carries, row by row, the names of the given adapters; function-level correspondence of _regroup_into_indexed_adapters (driver op regroup).",
+        "(regrouping refers to every given adapter exactly once); the index object is a constructor of the pipeline's Matchable, so pipeline-level correspondence runs in index mode. regroup_names / regroup_every_adapter_named: the name table after regrouping carries, row by row, the names of the given adapters; function-level correspondence of _regroup_into_indexed_adapters (driver op regroup); generated_index_tolerance (index and adapter agree on the tolerance for absolute error counts).",
  "C05": " Added: PairedEndRenamer keeps the ids of the mates matched (paired_rename_keeps_ids_matched); --pair-adapters ranks with repeated sequences; interleaved untrimmed stream. Translator gen_pairfilter observes the pair decision of the real program for every filter x --pair-filter x adapter sides on probe pairs; generated_pair_decisions_documented proves the table equal to the documented combination, filter_modes_documented proves the same of every filter step of the assembly model.",
  "C06": " Added: Statistics.__iadd__ and the per-adapter __iadd__ methods are modelled concretely (StatsMerge.lean) and proved to add: merging the statistics of the chunks of any "
         "chunking, in any order, gives the figures of the whole run (merged_statistics_of_any_chunking, merged_statistics_order_independent, statistics_merge_comm_assoc, "
         "merged_adapter_statistics), which discharges the monoid hypothesis for cutadapt's counters; tied to the code by the driver ops statsmerge/adaptermerge against `a += b` on real Statistics objects.",
- "C07": " Since fix 6bb8dc0 (short reads of adapters that search both overlap directions bypass the finder) prefilter_safe_partial holds for every ASCII read without NUL; one known finding remains (NUL byte vs N wildcard).",
+ "C07": " Added: translator gen_tolerance with generated_prefilter_tolerance (prefilter and aligner agree on the tolerance for absolute error counts). Since fix 6bb8dc0 (short reads of adapters that search both overlap directions bypass the finder) prefilter_safe_partial holds for every ASCII read without NUL; one known finding remains (NUL byte vs N wildcard).",
  "C10": " Added: PairedEndRenamer (rn, r1./r2. fields, id checks) and tokenize_braces are modelled; paired_rename_spec, paired_rename_placeholders, tokenize_sound; stepwise oracle "
         "(the run with all options equals a chain of one run per documented stage). Translator observes the order of -u/-U cuts on probe reads (generated_cuts_in_given_order, generated_cuts_are_model).",
  "C11": " Added: translator gen_filterorder (a probe read to which two filters apply, every pair, both option orders: category and redirect file) with generated_first_applicable_filter_wins; two-stage reference for 'filters see the fully modified read'.",
